@@ -777,14 +777,16 @@ pub fn run(property: &'static str, tier: Tier) -> Vec<Part> {
             continue;
         }
         let t0 = Instant::now();
-        let ex = explore_from(&plan.cfg, &plan.bounds, &plan.prefix, wall(t0, plan.secs), property == "C01");
+        // C01 adds a closure per plan: in the thorough tier the exploration gets half of the plan's
+        // budget and the closure a third, which keeps the whole check around 1.5 h
+        let explore_secs = if property == "C01" && tier == Tier::Thorough { (plan.secs / 2).max(30) } else { plan.secs };
+        let ex = explore_from(&plan.cfg, &plan.bounds, &plan.prefix, wall(t0, explore_secs), property == "C01");
         let mut part = ex.part;
         add_found(&mut part, &plan.cfg, &plan.bounds, ex.found);
         parts.push(part);
         if property == "C01" {
             let group: Vec<u8> = (0..plan.cfg.n as u8).collect();
-            // (thorough: the closure gets half of the plan's budget, which keeps the whole check under ~2 h)
-            let closure_secs = if tier == Tier::Thorough { (plan.secs / 2).max(30) } else { plan.secs };
+                        let closure_secs = if tier == Tier::Thorough { (plan.secs / 3).max(30) } else { plan.secs };
             let cl = closure(&plan.cfg, &plan.bounds, &ex.configs, &group, wall(Instant::now(), closure_secs));
             let mut cpart = cl.part;
             add_found(&mut cpart, &plan.cfg, &plan.bounds, cl.found);
